@@ -634,6 +634,14 @@ func (p *MinQueriesPlanner) selectLocation(possibleLocations []string, config *e
 	}
 	// the field can be found in many locations
 
+	// the gateway answers its own fields (node, custom query fields, introspection) itself: a service
+	// that also declares one of them knows nothing about the types the other services contribute
+	for _, location := range possibleLocations {
+		if location == internalSchemaLocation {
+			return internalSchemaLocation
+		}
+	}
+
 	// locations to prioritize first
 	initialLocationPriorities := []string{config.parentLocation, internalSchemaLocation}
 	priorities := make([]string, len(p.LocationPriorities), len(p.LocationPriorities)+len(initialLocationPriorities))
